@@ -21,7 +21,8 @@ Record iobs := mkI
     x_last : Z;          (* lastPass - base after the call, -1 when lastPass = 0 *)
     x_acc : Z; x_tot : Z; x_failing : Z; x_working : Z;   (* history() after the call *)
     x_fail : Z; x_drop : Z;                               (* Reduce: sums of Failure / Drop *)
-    x_pacc : Z; x_ptot : Z; x_pfailing : Z; x_pworking : Z }. (* history() just before the call *)
+    x_pacc : Z; x_ptot : Z; x_pfailing : Z; x_pworking : Z;   (* history() just before the call *)
+    x_pred : Z }.        (* the caller's predicate: 10 * (times called) + (times called with the value the request returned) *)
 
 (* the injected draw: r.Float64() = m / 2^53 *)
 Definition mkU (m : Z) : Q := Qmake m 9007199254740992.
@@ -98,6 +99,17 @@ Definition obs_match (base : Z) (w1 : world) (m : obs) (o : iobs) : bool :=
   (sum_fail (swin (w_st w1)) (w_clock w1) =? x_fail o) &&
   (sum_drop (swin (w_st w1)) (w_clock w1) =? x_drop o).
 
+(* the caller's predicate is asked exactly once, about the value the request returned (nil
+   included), by an admitted DoWithAcceptable / DoWithFallbackAcceptable call whose request did
+   not panic; never otherwise *)
+Definition pred_expected (c : call) (m : obs) : Z :=
+  match k_entry c, o_verdict m with
+  | (EDoAcc | EDoFbAcc), Some v =>
+    if rejected v then 0
+    else match k_out c with OPanic | OPanicSU => 0 | _ => 11 end
+  | _, _ => 0
+  end.
+
 Fixpoint agrees_from (cfg : config) (base : Z) (w : world) (cs : list call) (os : list iobs) : bool :=
   match cs, os with
   | [], [] => true
@@ -112,7 +124,7 @@ Fixpoint agrees_from (cfg : config) (base : Z) (w : world) (cs : list call) (os 
              (w_failing h0 =? x_pfailing o) && (w_working h0 =? x_pworking o)) then false
     else if tie then true     (* float64 vs exact: the rest of the history is not compared *)
     else let '(w1, m) := step cfg w c in
-         obs_match base w1 m o && agrees_from cfg base w1 cs' os'
+         obs_match base w1 m o && (pred_expected c m =? x_pred o) && agrees_from cfg base w1 cs' os'
   | _, _ => false
   end.
 
